@@ -729,6 +729,42 @@ def gen_shared_signal(seed, mode="loop"):
     return sc
 
 
+def gen_redispatch(seed, mode="loop"):
+    """C04: callbacks try to drive the loop themselves - m_ctx_dispatch() / m_ctx_loop() from a handler while a batch of several
+    events is being handed out (also right after m_ctx_quit(), also after deregistering the own module), and from handlers run
+    by the final flush"""
+    r = random.Random(seed * 89 + 61)
+    sc = Sc(mode, "re-entrant dispatch seed=%d" % seed)
+    driven_skeleton(sc)
+    n = r.randrange(1, 4)
+    t_stop = sc.topic("LIBMODULE_CTX_STOPPED")
+    for i in range(1, n + 1):
+        sc.mod(i, "rd%d" % i, 0, r.choice([0, 4]))
+        sc.cb(i, "stop", "*", [])       # (a dispatch from a stop callback run by the teardown after the loop would start a new loop)
+        sc.main += [("reg", i), ("start", i), ("fd_open", i, 0, 0), ("fd_reg", i, i, 0, sc.ud())]
+        if r.random() < 0.5:
+            sc.main.append(("sub", i, t_stop, 0, sc.ud()))
+        ops = []
+        x = r.random()
+        if x < 0.35:
+            ops = [("ctx_quit", 7), ("ctx_dispatch", 1)]
+        elif x < 0.55:
+            ops = [("dereg", -1), ("ctx_quit", 7), ("ctx_dispatch", 1)]
+        elif x < 0.75:
+            ops = [("ctx_dispatch", 1), ("ctx_dispatch", 1)]
+        elif x < 0.9:
+            ops = [("ctx_quit", 9), ("ctx_loop",)]
+        sc.cb(i, "evt", 0, ops)
+        sc.cb(i, "evt", "*", [("ctx_dispatch", 1)] if r.random() < 0.5 else [("ctx_loop",)] if r.random() < 0.3 else [])
+    sc.meta["max_ufd"] = 5
+    steps = [[("fd_write", i) for i in range(1, n + 1)], [], [("fd_write", i) for i in range(1, n + 1)], []]
+    driven_finish(sc, steps, rng=r)
+    finalize_main(sc)
+    if r.random() < 0.5:
+        without_observation_refs(sc)
+    return sc
+
+
 def gen_tick_in_flush(seed, mode="loop"):
     """C20: m_ctx_set_tick() called by a handler that the final flush of a loop run invokes (loop-stopped notification) while a
     tick is active"""
